@@ -254,12 +254,26 @@ def run_v1(app, rec, case):
     from nemoguardrails.colang.v1_0.runtime.flows import compute_context
 
     app.events_history_cache.clear()
+    # the event history the NEXT turn will start from = the events handed to the runtime plus the
+    # events it produced (what generate_async stores in its history cache); recorded by wrapping
+    # the runtime entry point in-process (no dependence on the cache's internal layout)
+    if not hasattr(app.runtime, "_verif_orig_generate_events"):
+        app.runtime._verif_orig_generate_events = app.runtime.generate_events
+
+        async def _rec_generate_events(events, processing_log=None):
+            snapshot = list(events)
+            new = await app.runtime._verif_orig_generate_events(events, processing_log=processing_log)
+            app.runtime._verif_last_events = snapshot + list(new)
+            return new
+
+        app.runtime.generate_events = _rec_generate_events
     history = []
     turns_out = []
     for turn in case["turns"]:
         rec.iv, rec.ov, rec.llm = turn["iv"], turn["ov"], turn.get("llm", [])
         rec.obs, rec.llm_i = [], 0
         history.append({"role": "user", "content": turn["user"]})
+        app.runtime._verif_last_events = None
         try:
             res = app.generate(messages=history)
         except Exception as e:  # noqa: BLE001 - an escaping exception is an observation
@@ -270,10 +284,7 @@ def run_v1(app, rec, case):
         else:
             reply = ["msg", res.get("content")]
         history.append(res)
-        # the persistent context as the next turn will see it: computed from the cached events
-        evs = None
-        for _key, evs in app.events_history_cache.items():
-            pass
+        evs = app.runtime._verif_last_events
         ctx = compute_context(evs) if evs else {}
         turns_out.append({"obs": rec.obs, "reply": reply, "flag": bool(ctx.get("skip_output_rails")),
                           "ctx": {k: ctx.get(k) for k in ("user_message", "bot_message", "triggered_input_rail",
@@ -640,6 +651,228 @@ def gen_cases(focus, tier, rng):
             cases.append(conv(ver, mode, exc, n_in, n_out, p, vec, TT, salt))
     return cases
 
+
+
+# ---------------------------------------------------------------------------------------
+# the check skeleton shared by C01 and C02 (CONVENTIONS section 3)
+
+
+def conv_size(case):
+    return sum(len(json.dumps(t)) for t in case["turns"])
+
+
+def shrink_case(case, still_bad, budget=40):
+    """Greedy reduction of a conversation that still fails `still_bad(case) -> bool` (runs the
+    implementation): drop trailing turns, turn verdicts into accepts."""
+    import copy
+
+    cur = copy.deepcopy(case)
+    steps = 0
+    changed = True
+    while changed and steps < budget:
+        changed = False
+        if len(cur["turns"]) > 1:
+            cand = copy.deepcopy(cur)
+            cand["turns"] = cand["turns"][:-1]
+            steps += 1
+            if still_bad(cand):
+                cur, changed = cand, True
+                continue
+        for ti, t in enumerate(cur["turns"]):
+            for side in ("iv", "ov"):
+                for k, v in enumerate(t[side]):
+                    if v != "a" and steps < budget:
+                        cand = copy.deepcopy(cur)
+                        cand["turns"][ti][side][k] = "a"
+                        steps += 1
+                        if still_bad(cand):
+                            cur, changed = cand, True
+    return cur
+
+
+def run_check(pid, gen, focus, oracle, tier, seed, replay, checker_cmd, rule, assumptions, notes=()):
+    import random
+
+    out = C.Outcome(pid, tier, seed)
+    rng = random.Random(seed * 1000003 + (1 if focus == "in" else 2))
+    b = C.build_and_audit(pid, gen)
+    C.proof_coverage(out, b, checker_cmd)
+    for br in b["broken"]:
+        out.add_broken(br, b["log"])
+    # the executable model must build for the correspondence even when a proof is broken
+    with C.BuildLock():
+        okm, logm = C.coq_make(["theories/Pipe/PipeRun.vo"])
+    if not okm:
+        out.add_broken("coq:theories/Pipe/PipeRun.v", logm)
+
+    cases, origin = [], []
+    corpus_dir = os.path.join(C.VERIF, "corpus", pid)
+    if os.path.isdir(corpus_dir):
+        for fn in sorted(os.listdir(corpus_dir)):
+            if fn.endswith(".json"):
+                d = json.load(open(os.path.join(corpus_dir, fn)))
+                cases.append(d["case"])
+                origin.append("corpus:" + fn)
+    if replay:
+        d = json.load(open(replay))
+        r = d.get("replay", d)
+        if "case" in r:
+            cases.append(r["case"])
+            origin.append("replay")
+    if not replay:
+        for c in gen_cases(focus, tier, rng):
+            cases.append(c)
+            origin.append("gen")
+
+    import time as _time
+    _t0 = _time.time()
+    results, errors = run_cases_parallel(cases, pid.lower())
+    t_impl = round(_time.time() - _t0, 1)
+    for e in errors:
+        out.add_broken(f"harness:{pid}-worker", e)
+
+    # ---- correspondence with the model (evaluated inside Coq)
+    n_turns = 0
+    _t0 = _time.time()
+    disagreements = {"v1": [], "v2": []}
+    if okm:
+        for ver, fn in (("v1", "check_v1"), ("v2", "check_v2")):
+            idx = [i for i, c in enumerate(cases) if c["ver"] == ver and results[i] is not None]
+            terms = [case_term(cases[i], results[i]) for i in idx]
+            n_turns += sum(len(results[i]) for i in idx)
+            if not terms:
+                continue
+            bools, err = C.run_cases(f"{pid}_{ver}", PREAMBLE, terms, fn)
+            if err:
+                out.add_broken(f"correspondence:{pid}-{ver}(coqc)", err)
+                continue
+            disagreements[ver] = [i for i, okb in zip(idx, bools) if not okb]
+    for ver, bad in disagreements.items():
+        if bad:
+            i = min(bad, key=lambda j: conv_size(cases[j]))
+            fnm = "conv_v1_c" if ver == "v1" else "conv_v2_c current_fixd_run"
+            model = C.eval_term(f"{pid}_{ver}", PREAMBLE,
+                                f"map (fun r => (trace_obs (snd (fst r)), snd r)) ({fnm} {coq_turns(cases[i])} {coq_cfg(cases[i])})")
+            out.add_broken(f"correspondence:{pid}-{ver}",
+                           f"{len(bad)} conversations disagree with the model; smallest: case={json.dumps(cases[i])} "
+                           f"observed={json.dumps(results[i])} model={model[-1500:]}")
+
+    t_model = round(_time.time() - _t0, 1)
+    # ---- direct property oracle on the IMPLEMENTATION's observations
+    viol = []
+    for i, (c, r) in enumerate(zip(cases, results)):
+        if r is None:
+            continue
+        for sig, what, turn_idx in oracle(c, r):
+            viol.append((sig, what, turn_idx, i))
+    by_sig = {}
+    for sig, what, turn_idx, i in viol:
+        by_sig.setdefault(sig, []).append((what, turn_idx, i))
+    for sig, lst in by_sig.items():
+        what, turn_idx, i = min(lst, key=lambda x: conv_size(cases[x[2]]))
+
+        def still_bad(cand, sig=sig):
+            try:
+                return any(s == sig for s, _w, _t in oracle(cand, run_case(cand)))
+            except Exception:  # noqa: BLE001
+                return False
+
+        small = cases[i]
+        try:
+            small = shrink_case(cases[i], still_bad)
+        except Exception:  # noqa: BLE001
+            pass
+        try:
+            obs_small = run_case(small)
+            w2 = [w for s, w, _t in oracle(small, obs_small) if s == sig]
+            what = w2[0] if w2 else what
+        except Exception:  # noqa: BLE001
+            obs_small = results[i]
+        out.findings.append(C.Finding(sig, f"{what} ({len(lst)} conversations)",
+                                      {"case": small, "observed": obs_small, "signature": sig, "what": what}))
+
+    # ---- evidence
+    seen, nontrivial = set(), 0
+    hist = {}
+    for c, r in zip(cases, results):
+        h = C.canon_hash(c)
+        if h in seen:
+            continue
+        seen.add(h)
+        vs = [v if isinstance(v, str) else "w" for t in c["turns"] for v in t["iv"] + t["ov"]]
+        key = (c["ver"], c.get("mode", ""), c["exc"])
+        hist[str(key)] = hist.get(str(key), 0) + 1
+        if (c["n_in"] + c["n_out"]) >= 2 and len(c["turns"]) >= 2 and any(v != "a" for v in vs):
+            nontrivial += 1
+    out.coverage.update({
+        "evaluations": len([r for r in results if r is not None]),
+        "turns_compared": n_turns,
+        "distinct_nontrivial": nontrivial,
+        "rule": rule,
+        "samples": [{"case": cases[i], "observed": results[i]} for i in range(min(2, len(cases)))],
+        "input_distribution": {"conversations_per_config(ver,mode,exceptions)": hist,
+                               "corpus_cases": sum(1 for o in origin if o.startswith("corpus")),
+                               "focus": focus},
+        "traces_validated_against_impl": len([r for r in results if r is not None]),
+        "correspondence_disagreements": sum(len(v) for v in disagreements.values()),
+        "oracle_violations": len(viol),
+        "timing_s": {"implementation_runs": t_impl, "model_in_coq": t_model},
+    })
+    out.assumptions += assumptions
+    out.notes += list(notes)
+    if tier == "thorough" and b["ok"]:
+        ok, log = C.coqchk(pid, b["files"])
+        out.coverage["coqchk"] = "ok" if ok else "FAILED"
+        if not ok:
+            out.add_broken("coqchk", log)
+    return C.finish(out)
+
+
+# helpers for the oracles (independent of the Coq model: plain re-statement of the property text)
+
+
+def expected_rail_calls(verdicts, text, rewriting):
+    """The calls the property demands for one pass over a rail list: [(k, text shown)], the
+    final text, and the index of the rejecting rail (or None)."""
+    calls = []
+    cur = text
+    for k, v in enumerate(verdicts):
+        calls.append((k, cur))
+        if v == "r":
+            return calls, cur, k
+        if v != "a" and rewriting:
+            cur = v[1]
+    return calls, cur, None
+
+
+COMMON_ASSUMPTIONS = [
+    "rails have the canonical shape of the library rails: execute a (system) action; on reject `bot refuse to respond` "
+    "(or the rail exception when enable_rails_exceptions) then `stop` (Colang 2: `bot say` refusal / send exception, `abort`); "
+    "a rewriting Colang 1 rail assigns $user_message / $bot_message; rails do not touch the loop variables $i / $input_flows",
+    "rail actions, the LLM, the parsers of LLM output, the dialog policy and the predefined messages are arbitrary functions "
+    "(Section variables); action failures (C03), generation options (C16) and streaming are outside these models",
+    "prompt rendering is not modelled: the model tracks which texts flow into a prompt, the harness compares the set of "
+    "marker texts found in the real prompt (the next-step prompt strips message texts: inclusion only); the predefined "
+    "messages of the configuration are constants and are ignored in that comparison",
+    "conversations are driven turn by turn on one LLMRails instance, the caller appending each reply to its message list "
+    "(Colang 2: passing the returned state); re-submitting an old transcript to a fresh instance is history supplied by "
+    "the caller and outside the claim (DESIGN C01 scope note); in passthrough mode the caller's message list is sent "
+    "verbatim, so texts of earlier rejected turns re-enter prompts through the caller (modelled as `raw`)",
+    "passthrough x enable_rails_exceptions is not enumerated: a role=`exception` message in the caller's list makes llm_call "
+    "raise (internal error + hide_prev_turn), which is C03 territory",
+]
+
+OBSERVATIONS = [
+    "O1: the return value of a NON-system rail action is rendered into the colang history of later dialog prompts "
+    "('# The result was ...'): with rewriting rails whose action returns the new text, intermediate rewrites and texts of "
+    "rejected turns reach generate_user_intent prompts; library rail actions are system actions and are not rendered",
+    "O2: library flow `self check output` (flows.v1.co) with enable_rails_exceptions creates OutputRailException but does "
+    "not `stop`: later output rails still run and StartUtteranceBotAction(blocked text) is stored in the event history; "
+    "the reply is the exception (Props/C02.v C02_T_self_check_output_stops exempts that edge)",
+    "O3: after an internal error (hide_prev_turn) flows read the context of the truncated history while "
+    "_process_start_action suppresses ContextUpdates equal to the context of ALL events: a later rail decision can read a "
+    "stale action result (seen with passthrough + exception message in the caller's list); reported to the C03 builder",
+]
 
 if __name__ == "__main__":
     if len(sys.argv) >= 4 and sys.argv[1] == "--worker":
